@@ -238,7 +238,7 @@ func (w *World) monitorDelivery(prop string) {
 
 func (w *World) monitorExchangeOrder(prop string) {
 	for _, x := range w.xchs {
-		if !x.closed {
+		if !x.closed || x.abandoned {
 			continue
 		}
 		qos := int(x.op.Kind[3] - '0')
